@@ -837,28 +837,28 @@ func (r *RefineLoad) Decode(d *Decoder) error {
 
 	r.GasUsed = Gas(gasUsed)
 
-	imports, err := d.DecodeInteger()
+	imports, err := d.decodeIntegerBits(16)
 	if err != nil {
 		return err
 	}
 
 	r.Imports = U16(imports)
 
-	extrinsicCount, err := d.DecodeInteger()
+	extrinsicCount, err := d.decodeIntegerBits(16)
 	if err != nil {
 		return err
 	}
 
 	r.ExtrinsicCount = U16(extrinsicCount)
 
-	extrinsicSize, err := d.DecodeInteger()
+	extrinsicSize, err := d.decodeIntegerBits(32)
 	if err != nil {
 		return err
 	}
 
 	r.ExtrinsicSize = U32(extrinsicSize)
 
-	exports, err := d.DecodeInteger()
+	exports, err := d.decodeIntegerBits(16)
 	if err != nil {
 		return err
 	}
@@ -916,7 +916,7 @@ func (w *WorkReport) Decode(d *Decoder) error {
 
 	// Work report core index is compact
 	// https://github.com/davxy/jam-test-vectors/commit/fed98559dabaa7058d7f9d83cb8c9353bd78d544
-	coreIndex, err := d.DecodeInteger()
+	coreIndex, err := d.decodeIntegerBits(16)
 	if err != nil {
 		return err
 	}
@@ -1630,7 +1630,7 @@ func (c *CoreActivityRecord) Decode(d *Decoder) error {
 	var err error
 
 	cLog(Cyan, "Decoding DALoad")
-	daLoad, err := d.DecodeInteger()
+	daLoad, err := d.decodeIntegerBits(32)
 	if err != nil {
 		return err
 	}
@@ -1638,7 +1638,7 @@ func (c *CoreActivityRecord) Decode(d *Decoder) error {
 	cLog(Yellow, "DALoad: %v", c.DALoad)
 
 	cLog(Cyan, "Decoding Popularity")
-	popularity, err := d.DecodeInteger()
+	popularity, err := d.decodeIntegerBits(16)
 	if err != nil {
 		return err
 	}
@@ -1646,7 +1646,7 @@ func (c *CoreActivityRecord) Decode(d *Decoder) error {
 	cLog(Yellow, "Popularity: %v", c.Popularity)
 
 	cLog(Cyan, "Decoding Imports")
-	imports, err := d.DecodeInteger()
+	imports, err := d.decodeIntegerBits(16)
 	if err != nil {
 		return err
 	}
@@ -1655,7 +1655,7 @@ func (c *CoreActivityRecord) Decode(d *Decoder) error {
 
 	// x
 	cLog(Cyan, "Decoding ExtrinsicCount")
-	extrinsicCount, err := d.DecodeInteger()
+	extrinsicCount, err := d.decodeIntegerBits(16)
 	if err != nil {
 		return err
 	}
@@ -1664,7 +1664,7 @@ func (c *CoreActivityRecord) Decode(d *Decoder) error {
 
 	// z
 	cLog(Cyan, "Decoding ExtrinsicSize")
-	extrinsicSize, err := d.DecodeInteger()
+	extrinsicSize, err := d.decodeIntegerBits(32)
 	if err != nil {
 		return err
 	}
@@ -1672,7 +1672,7 @@ func (c *CoreActivityRecord) Decode(d *Decoder) error {
 	cLog(Yellow, "ExtrinsicSize: %v", c.ExtrinsicSize)
 
 	cLog(Cyan, "Decoding Exports")
-	exports, err := d.DecodeInteger()
+	exports, err := d.decodeIntegerBits(16)
 	if err != nil {
 		return err
 	}
@@ -1680,7 +1680,7 @@ func (c *CoreActivityRecord) Decode(d *Decoder) error {
 	cLog(Yellow, "Exports: %v", c.Exports)
 
 	cLog(Cyan, "Decoding AccumulateCount")
-	bundleSize, err := d.DecodeInteger()
+	bundleSize, err := d.decodeIntegerBits(32)
 	if err != nil {
 		return err
 	}
@@ -1724,7 +1724,7 @@ func (s *ServiceActivityRecord) Decode(d *Decoder) error {
 	var err error
 
 	cLog(Cyan, "Decoding ProvidedCount")
-	providedCount, err := d.DecodeInteger()
+	providedCount, err := d.decodeIntegerBits(16)
 	if err != nil {
 		return err
 	}
@@ -1732,7 +1732,7 @@ func (s *ServiceActivityRecord) Decode(d *Decoder) error {
 	cLog(Yellow, "ProvidedCount: %v", s.ProvidedCount)
 
 	cLog(Cyan, "Decoding ProvidedSize")
-	providedSize, err := d.DecodeInteger()
+	providedSize, err := d.decodeIntegerBits(32)
 	if err != nil {
 		return err
 	}
@@ -1740,7 +1740,7 @@ func (s *ServiceActivityRecord) Decode(d *Decoder) error {
 	cLog(Yellow, "ProvidedSize: %v", s.ProvidedSize)
 
 	cLog(Cyan, "Decoding RefinementCount")
-	refinementCount, err := d.DecodeInteger()
+	refinementCount, err := d.decodeIntegerBits(32)
 	if err != nil {
 		return err
 	}
@@ -1756,7 +1756,7 @@ func (s *ServiceActivityRecord) Decode(d *Decoder) error {
 	cLog(Yellow, "RefinementGasUsed: %v", refinementGasUsed)
 
 	cLog(Cyan, "Decoding Imports")
-	imports, err := d.DecodeInteger()
+	imports, err := d.decodeIntegerBits(32)
 	if err != nil {
 		return err
 	}
@@ -1764,7 +1764,7 @@ func (s *ServiceActivityRecord) Decode(d *Decoder) error {
 	cLog(Yellow, "Imports: %v", imports)
 
 	cLog(Cyan, "Decoding ExtrinsicCount")
-	extrinsicCount, err := d.DecodeInteger()
+	extrinsicCount, err := d.decodeIntegerBits(32)
 	if err != nil {
 		return err
 	}
@@ -1772,7 +1772,7 @@ func (s *ServiceActivityRecord) Decode(d *Decoder) error {
 	cLog(Yellow, "ExtrinsicCount: %v", extrinsicCount)
 
 	cLog(Cyan, "Decoding ExtrinsicSize")
-	extrinsicSize, err := d.DecodeInteger()
+	extrinsicSize, err := d.decodeIntegerBits(32)
 	if err != nil {
 		return err
 	}
@@ -1780,7 +1780,7 @@ func (s *ServiceActivityRecord) Decode(d *Decoder) error {
 	cLog(Yellow, "ExtrinsicSize: %v", extrinsicSize)
 
 	cLog(Cyan, "Decoding Exports")
-	exports, err := d.DecodeInteger()
+	exports, err := d.decodeIntegerBits(32)
 	if err != nil {
 		return err
 	}
@@ -1788,7 +1788,7 @@ func (s *ServiceActivityRecord) Decode(d *Decoder) error {
 	cLog(Yellow, "Exports: %v", exports)
 
 	cLog(Cyan, "Decoding AccumulateCount")
-	accumulateCount, err := d.DecodeInteger()
+	accumulateCount, err := d.decodeIntegerBits(32)
 	if err != nil {
 		return err
 	}
